@@ -256,6 +256,17 @@ def np_sign(ex, args, kwargs, node):
     return map1(ex, args[0], f)
 
 
+@model("numpy.copysign", "math.copysign")
+def np_copysign(ex, args, kwargs, node):
+    """copysign(a, b) for scalars: |a| with the sign of b (A-REAL: no signed zero, b == 0 counts as positive)"""
+    a, b = args
+    if not (is_scalar(a) and is_scalar(b)):
+        raise Unsupported("copysign of arrays")
+    za, zb = to_z3(a, "real"), to_z3(b, "real")
+    mag = z3.If(za >= 0, za, -za)
+    return z3.If(zb >= 0, mag, -mag)
+
+
 @model("numpy.mod", "numpy.remainder")
 def np_mod(ex, args, kwargs, node):
     a, b = args
